@@ -126,6 +126,17 @@ def sqliteLoop {X R E : Type} (guarded : Bool) (mk : X → Except E R) (sel : Op
     (tables : List (List (List X))) : Run R E :=
   mapLoop guarded mk sel (tables.flatMap fun batches => batches.flatMap id)
 
+/-- `read_table`'s fetch loop: `rows = cursor.fetchmany(batch_size)`; an EMPTY fetch ends the table, anything else is
+    handed on row by row. `fuel` bounds the number of fetches (`rows.length + 1` always suffices). -/
+def fetchLoop {X : Type} (batch : Nat) : Nat → List X → List (List X)
+  | 0, _ => []
+  | fuel + 1, rows =>
+    let b := rows.take batch
+    if b.isEmpty then [] else b :: fetchLoop batch fuel (rows.drop batch)
+
+/-- the batches `read_table` goes through for one table -/
+def tableBatches {X : Type} (batch : Nat) (rows : List X) : List (List X) := fetchLoop batch (rows.length + 1) rows
+
 /-! ### All five readers behind one type -/
 
 structure Cfg where
